@@ -80,6 +80,12 @@ def transform(d, arr, way, via, store):
             for _ in m.iterpairs(): pass
             d.MatrixArray_to_fourier(m)
         new = np.zeros((N, 2, 2)); new[:, 0, 0] = arr; new[:, 0, 1] = new[:, 1, 0] = arr; new[:, 1, 1] = -arr
+        # the data in the memory layouts users produce: C order, Fortran order, the transposed view of a (rank, rank, length) table, a block of a larger array
+        lay = store['n'] = store.get('n', 0) + 1
+        if lay % 4 == 1: new = np.asfortranarray(new)
+        elif lay % 4 == 2: new = np.ascontiguousarray(new.transpose(2, 1, 0)).T
+        elif lay % 4 == 3:
+            big = np.zeros((N, 3, 3)); big[:, :2, :2] = new; new = big[:, :2, :2]
         m.data = new; m.space = Space.Real if way == 'F' else Space.Fourier
         (d.MatrixArray_to_fourier if way == 'F' else d.MatrixArray_to_real)(m)
         return np.array(m.data[:, 0, 1], dtype=float)
